@@ -1,4 +1,4 @@
 From Coq Require Import Extraction ExtrOcamlBasic ZArith QArith.
-From PV Require Import Lib.ExtractBase Model.Sched.
+From PV Require Import Lib.ExtractBase Model.Sched Model.SchedList.
 Extraction Language OCaml.
-Extraction "extracted/C01_model.ml" xb_types drain spec_b count_ok spec_finish count at_ cum valid is_rate.
+Extraction "extracted/C01_model.ml" xb_types drain spec_b count_ok spec_finish count at_ cum valid is_rate list_drain list_spec_b list_spec_finish.
